@@ -20,9 +20,25 @@ NOT_APPLICABLE = {
 
 # claimed by DESIGN.md but whose check is not built yet (kept out of `checks` until it runs clean end to end)
 PENDING = {p: "in scope for deterministic simulation (DESIGN.md §5) but the check is not built yet in this revision; not claimed"
-           for p in ["C07", "C12", "C14"]}
+           for p in ["C07", "C14"]}
 
 PROPS = {
+    "C12": {
+        "level": "exploration",
+        "level_text": "every generated router (discovered from the source tree, count cross-checked against the file glob) x every method of its service descriptor, driven through the descriptor's own handlers with random requests and scripted fake backends (faults: backend status at any position, caller send error at message j, factory/fallback misses); registry histories by 1-3 tasks at the router's windows checked for linearizability against a map model; measured coverage of the (router, method) space, required complete in the thorough tier",
+        "level_note": TRUST + "; porcupine for the registry; fake backends are typed sc-api clients over a recording grpc.ClientConnInterface. NOT decided: the textual clause that checked-in routers/wrappers are byte-for-byte what the generators produce - its behavioural consequence (every descriptor method is routed, none falls through to Unimplemented) is decided by the enumeration",
+        "technique": "deterministic simulation: enumeration of (router, method) with seeded requests/response scripts/faults through the service descriptors + seeded schedules of registry operations with a porcupine linearizability check",
+        "rule": ("route-forward: (router, method, request name, default-name interceptor, backend script, caller send error) from the decision tape; every run is non-trivial; distinct = distinct (router.method, target name) combinations. "
+                 "route-registry: " + RULE_SCHED),
+        "scenarios": [
+            {"name": "route-forward", "quick": 60000, "thorough": 3000000, "thorough_time": 150},
+            {"name": "route-registry", "quick": 40000, "thorough": 3000000, "thorough_time": 150},
+        ],
+        "case_space": "from_worker",
+        "case_space_what": "(generated router, method of its service descriptor) pairs discovered from /repo/pkg/trait",
+        "require_hits": ["send-err", "router.get.miss", "router.get.insert"],
+        "assumptions": ["client-streaming methods would not be covered (none exists in the discovered descriptors; counted if one appears)"],
+    },
     "C13": {
         "level": "exploration",
         "level_text": "seeded generation of joint call scripts for the four call shapes, each executed over a real gRPC server/client pair on bufconn (the reference, in a fake-clock bubble) and over wrap.ServerToClient with client and handler as scheduled tasks under several interleavings and fake-time advance for deadlines; normalised client transcripts compared",
